@@ -148,8 +148,8 @@ EXEMPT = {
     ('MarginRule._setCssText', 'CSSStyleDeclaration(...); self.style = <derived> (setter)'): "the block is constructed without text; CSSStyleDeclaration._setCssText('') has no token to reject, and _setStyle parses only str arguments",
     ('CSSStyleSheet._setCssText', 'self._cleanNamespaces(...)'): 'unconfirmed candidate, no rejecting input found: the clean-up removes only rules whose (prefix, URI) pair is shadowed, deleteRule refuses only the last rule of a URI that selectors use, and selectors resolve prefixes through the same effective mapping (recorded in DESIGN.md as not decided)',
     ('CSSStyleSheet.insertRule', 'self._cleanNamespaces(...)'): 'unconfirmed candidate, no rejecting input found (see CSSStyleSheet._setCssText)',
-    ('CSSStyleDeclaration.setProperty', 'property.priority = <derived> (setter)'): 'the value is the priority of the temporary Property built (and thereby validated) at the top of the function; a raw parameter would be described as <input>',
-    ('_Namespaces.__setitem__', 'rule.prefix = <input> (setter)'): 'the rule was looked up by this very prefix, so the store re-assigns the prefix it already has; the preceding namespaceURI store either raises before writing (different URI) or re-assigns the same URI',
+    ('CSSStyleDeclaration.setProperty', '<Property>.priority = <derived> (setter)'): 'the value is the priority of the temporary Property built (and thereby validated) at the top of the function; a raw parameter would be described as <input>',
+    ('_Namespaces.__setitem__', '<CSSNamespaceRule>.prefix = <input> (setter)'): 'the rule was looked up by this very prefix, so the store re-assigns the prefix it already has; the preceding namespaceURI store either raises before writing (different URI) or re-assigns the same URI',
     ('MediaQuery._setMediaText', 'self.mediaType = <derived> (setter)'): "the value was matched by the 'media_type' production, whose predicate is membership in MEDIA_TYPES - the same test _setMediaType applies",
 }
 
